@@ -383,7 +383,7 @@ func writeEvidence(verif, prop, tier string, seed int, spec *PropSpec, recs []ob
 	}
 	sort.Strings(tb)
 	tb = append(tb, "go/packages + go/types + go/ssa (x/tools v0.50.0): the SSA means what the compiler compiles",
-		"the VC generator /verif/engine (checked by the must-fail corpus /verif/mutants and by replaying models on the real code)",
+		"the VC generator /verif/engine (its only check is the must-fail corpus /verif/mutants and the seeded changes /verif/seeded; models are NOT replayed on the real code)",
 		"SMT solvers z3 5.1.0, cvc5 1.0.3, z3 4.8.12 (cross-checked in the thorough tier)")
 	var asm []string
 	for n := range notes {
